@@ -3,7 +3,7 @@ order-insensitive or sanitised by a sort before any use that reaches the output)
 ordered), C07.ref (no clocks / RNG / Ref formatting on serializer paths), C07.fix (readers rebuild order deterministically)."""
 import re
 
-from sa import core, flow, discipline as D
+from sa import decision, core, flow, discipline as D
 from . import common
 
 HASH_ITER = re.compile(
@@ -63,14 +63,21 @@ def run_sanitisers(c, prog):
     # sanitiser 1: XML property buffer sorted between extend and drain
     fn = prog.fn("rbx_xml::serializer::serialize_instance")
     cfg = D.CFG(fn)
-    ext = [i for i, cal, gen, t in D.mir_calls(fn) if cal and re.search(r"(Vec::<T, A>::extend|as core::iter::traits::collect::Extend<.*>>::extend)$", cal)]
-    drains = [i for i, cal, gen, t in D.mir_calls(fn) if cal and cal.endswith("Vec::<T, A>::drain")]
+    from .domutil import local_root
+    buf_params = [i + 1 for i, prm in enumerate(fn.params) if "alloc::vec::Vec<" in (prm.get("ty") or "")]
+
+    def on_buffer(t):
+        r = local_root(fn, t["args"][0], depth=12) if t.get("args") else None
+        return r is not None and r[0] in buf_params
+    # fills of the buffer parameter: extend(..) or push(..) (a loop of pushes is the same fill)
+    ext = [i for i, cal, gen, t in D.mir_calls(fn) if cal and re.search(r"(Vec::<T, A>::(extend|push|extend_from_slice|append|insert)|as core::iter::traits::collect::Extend<.*>>::extend)$", cal) and on_buffer(t)]
+    drains = [i for i, cal, gen, t in D.mir_calls(fn) if cal and cal.endswith("Vec::<T, A>::drain") and on_buffer(t)]
     sorts = {i for i, cal, gen, t in D.mir_calls(fn) if cal and SORT.search(cal)}
     ok = bool(ext and drains and sorts) and all(cfg.must_pass(e, sorts, drains) for e in ext)
     # the sort key must be the property name (first tuple element): closure returns `*key` of pattern (key, _)
     key_ok = False
     for n in core.walk_fn(fn):
-        if n.get("k") == "MethodCall" and n["m"].startswith("sort") and core.place_root(n["recv"])[0] == "property_buffer":
+        if n.get("k") == "MethodCall" and n["m"].startswith("sort") and core.place_root(n["recv"])[0] in [prm.get("name") for prm in fn.params if "alloc::vec::Vec<" in (prm.get("ty") or "")]:
             clo = core.strip(n["args"][0]) if n["args"] else {}
             if clo.get("k") == "Closure":
                 p = clo["params"][0]
@@ -218,19 +225,67 @@ def run(c, prog):
         c.violation(R, "ref-text|" + ref_fmt[0][0], f"a Ref value (random u128) is formatted / compared on a serializer path: {ref_fmt[:3]}", ref_fmt[0][1], instance="no-ref-text")
     # xml referents: map_id is a monotone counter with insert-if-absent
     fn = prog.fn("rbx_xml::serializer::EmitState::<'db>::map_id")
-    m = [n for n in core.walk_fn(fn) if n.get("k") == "Match" and core.strip(n["e"]).get("m") == "get"]
-    ok = False
-    if m:
-        for arm in m[0]["arms"]:
-            if "None" in core.pat_str(arm["pat"]):
-                body = arm["body"]
-                has_ins = any(x.get("k") == "MethodCall" and x["m"] == "insert" and core.place_root(x["recv"]) == ("self", ["referent_map"]) for x in core.walk(body))
-                has_inc = any(x.get("k") == "AssignOp" and x["op"] == "+=" and core.place_root(x["l"]) == ("self", ["next_referent"]) and core.lit_value(x["r"]) == 1 for x in core.walk(body))
-                ok = has_ins and has_inc
+
+    def role(n):
+        n0 = core.strip(n)
+        if n0.get("k") == "LetExpr":
+            init = core.strip(n0["init"])
+            if init.get("k") == "MethodCall" and init["m"] == "get" and core.place_root(init["recv"]) == ("self", ["referent_map"]):
+                ps = core.pat_str(n0["pat"])
+                return "HIT" if "Some" in ps else ("!HIT" if "None" in ps else "?" + ps)
+            return "let:" + core.pat_str(n0["pat"])
+        if n0.get("k") == "MethodCall" and n0["m"] == "contains_key" and core.place_root(n0["recv"]) == ("self", ["referent_map"]):
+            return "HIT"
+        return "?" + core.fingerprint(n0, 4)
+
+    def eff(n):
+        n0 = core.strip(n)
+        if n0.get("k") == "MethodCall" and n0["m"] == "insert" and core.place_root(n0["recv"]) == ("self", ["referent_map"]):
+            return "insert(id, next)"
+        if n0.get("k") == "AssignOp" and n0["op"] == "+=" and core.place_root(n0["l"]) == ("self", ["next_referent"]) and core.lit_value(n0["r"]) == 1:
+            return "next += 1"
+        if n0.get("k") in ("Assign", "AssignOp"):
+            return "write " + core.fingerprint(n0["l"], 3)
+        return "·"
+    tb = decision.Tabler(namer=role, effect_namer=eff)
+    t = {}
+    for k, v in decision.table(tb.paths(fn.body)).items():
+        cs = frozenset(("HIT", not val) if a == "!HIT" else (a, val) for a, val in k)
+        if any((a, not val) in cs for a, val in cs):
+            continue
+        t.setdefault(cs, set()).update(tuple(sorted(e for e in ef if e != "·" and not e.startswith("return"))) for ef, ex in v)
+    got = {k: sorted(v) for k, v in t.items()}
+    want = {frozenset({("HIT", True)}): [()], frozenset({("HIT", False)}): [("insert(id, next)", "next += 1")]}
+    ok, _d = decision.same_function(got, want)
+    # the inserted number is the counter's value before the increment
+    if ok:
+        order = []
+        val_ok = False
+        lets = {st["pat"].get("lid"): st for st in core.walk_lets(fn.body) if "init" in st and st["pat"].get("k") == "Binding"}
+        for n in core.walk_fn(fn):
+            if n.get("k") == "Let" or n.get("k") == "AssignOp" or (n.get("k") == "MethodCall" and n["m"] == "insert"):
+                pass
+        seq = []
+        for n in core.walk_fn(fn):
+            if n.get("k") == "AssignOp" and core.place_root(n["l"]) == ("self", ["next_referent"]):
+                seq.append(("inc", n))
+            if n.get("k") == "MethodCall" and n["m"] == "insert" and core.place_root(n["recv"]) == ("self", ["referent_map"]):
+                seq.append(("ins", n))
+        ins = [n for k_, n in seq if k_ == "ins"]
+        if len(ins) == 1:
+            a = core.strip(ins[0]["args"][1])
+            if core.place_root(a) == ("self", ["next_referent"]):
+                val_ok = [k_ for k_, _ in seq] == ["ins", "inc"]
+            elif a.get("lid") in lets and core.place_root(lets[a["lid"]]["init"]) == ("self", ["next_referent"]):
+                # the let precedes the increment in source order
+                sp_let = lets[a["lid"]].get("sp", "")
+                inc = [n for k_, n in seq if k_ == "inc"]
+                val_ok = bool(inc) and core.loc(lets[a["lid"]]) <= core.loc(inc[0])
+        ok = val_ok
     if ok:
         c.ok(R, "xml:map_id-counter")
     else:
-        c.violation(R, "xml|map_id", "EmitState::map_id is no longer `get or (insert next_referent; next_referent += 1)`: XML referents would not be dense, traversal-ordered numbers", fn.sp, instance="xml:map_id-counter")
+        c.violation(R, "xml|map_id", f"EmitState::map_id is no longer `get or (insert next_referent; next_referent += 1)`: XML referents would not be dense, traversal-ordered numbers (decision table {got})", fn.sp, instance="xml:map_id-counter")
 
     R = "C07.fix"
     c.rule(R, "the readers rebuild child order without consulting hash order: binary finish() is a FIFO over PRNT order, no hash iteration in the decoders' tree construction")
@@ -250,7 +305,7 @@ def run(c, prog):
             c.violation(R, f"decoder-hash-iter|{owner}|{core.short(cal)}", f"{owner} iterates a hash container while decoding; if that order reaches insert order, load/save is not a fixed point", t.get("sp", ""), instance=inst)
     fn = common.find_fn(prog, r"deserializer::state::DeserializerState.*::finish$")
     qops = [cal.rsplit("::", 1)[-1] for i, cal, gen, t in D.mir_calls(fn) if cal and "VecDeque::<T, A>::" in cal]
-    if set(qops) <= {"new", "push_back", "pop_front", "with_capacity"} and "pop_front" in qops:
+    if set(qops) <= {"new", "push_back", "pop_front", "with_capacity", "extend", "len", "is_empty", "reserve"} and "pop_front" in qops:
         c.ok(R, "binary-finish:fifo")
     else:
         c.violation(R, "finish|fifo", f"DeserializerState::finish uses queue operations {qops}; construction order must be FIFO over PRNT order", fn.sp, instance="binary-finish:fifo")
